@@ -208,10 +208,7 @@ func TestChild(t *testing.T) {
 	// memory ceiling: an allocation sized by a hostile 2^40 dies at once instead of thrashing the machine
 	lim := uint64(6 << 30)
 	_ = syscall.Setrlimit(syscall.RLIMIT_AS, &syscall.Rlimit{Cur: lim, Max: lim})
-	// collect garbage by a heap limit instead of by growth: decoders that allocate a fixed 8 MiB per input (xz) would
-	// otherwise trigger a collection per input
-	debug.SetGCPercent(-1)
-	debug.SetMemoryLimit(768 << 20)
+	debug.SetGCPercent(200)
 
 	tg := targetByName(os.Getenv("C04_TARGET"))
 	if tg == nil {
